@@ -3,8 +3,10 @@ package harness
 import (
 	"context"
 	"encoding/json"
+	"errors"
 	"fmt"
 	"hash/fnv"
+	"os"
 	"sync"
 	"testing"
 	"testing/synctest"
@@ -61,17 +63,46 @@ type c03ObsImpl struct {
 	Limits  c03Limits `json:"limits"`
 }
 
+// c03ObsScriptInput: an observation of a C08 script (the same two instances observed over several rounds while what they
+// hold changes in between; a replay re-runs the script and keeps the round `shot`)
+type c03ObsScriptInput struct {
+	Kind string `json:"kind"` // "obs-script"
+	Node int    `json:"node"`
+	c08ScriptRecipe
+	X *c03ObsX `json:"x,omitempty"`
+}
+
 func c03EmitWorld(t *testing.T, em *Emitter, src string, rc c08Recipe, only int) {
 	var shots []c08Shot
 	synctest.Test(t, func(t *testing.T) { shots = c08RunWorld(t, rc, em) })
-	for _, sh := range shots {
+	c03EmitShots(em, src, shots, only, -1, func(sh c08Shot, k, i int, x *c03ObsX) any {
+		one := rc
+		one.Seqs = []uint64{sh.Seq}
+		return c03ObsInput{Kind: "obs", Node: i, c08Recipe: one, X: x}
+	})
+}
+
+func c03EmitScript(t *testing.T, em *Emitter, src string, rc c08ScriptRecipe, only int) {
+	var shots []c08Shot
+	synctest.Test(t, func(t *testing.T) { shots = c08RunScript(t, rc, em) })
+	c03EmitShots(em, src, shots, only, rc.Shot, func(sh c08Shot, k, i int, x *c03ObsX) any {
+		one := rc
+		one.Shot = k
+		return c03ObsScriptInput{Kind: "obs-script", Node: i, c08ScriptRecipe: one, X: x}
+	})
+	em.Hit("kind=obs-script")
+}
+
+func c03EmitShots(em *Emitter, src string, shots []c08Shot, only, onlyShot int, mk func(sh c08Shot, k, i int, x *c03ObsX) any) {
+	for k, sh := range shots {
+		if onlyShot >= 0 && k != onlyShot {
+			continue
+		}
 		for i := 0; i < 2; i++ {
 			if only >= 0 && i != only {
 				continue
 			}
-			one := rc
-			one.Seqs = []uint64{sh.Seq}
-			in := c03ObsInput{Kind: "obs", Node: i, c08Recipe: one}
+			var in struct{ X *c03ObsX }
 			impl := c03ObsImpl{Len: len(sh.Raw[i]), PeerErr: sh.PeerErr[i], Limits: toC03Limits(sh.Limits)}
 			if sh.Err[i] != nil {
 				impl.Err = sh.Err[i].Error()
@@ -97,7 +128,10 @@ func c03EmitWorld(t *testing.T, em *Emitter, src string, rc c08Recipe, only int)
 			if in.X == nil {
 				in.X = &c03ObsX{F: sh.X.F, Aux: JRoundAux{}}
 			}
-			em.Emit(src, in, impl)
+			if e := sh.Impl.Nodes[i].EvalErr; e != "" && impl.Err == "" { // (scripts) the instance went on to evaluate Outcome / Reports
+				impl.Err, impl.Obs = "after the observation: "+e, nil
+			}
+			em.Emit(src, mk(sh, k, i, in.X), impl)
 			em.Hit("kind=obs")
 		}
 	}
@@ -183,6 +217,22 @@ type c03ChainRecipe struct {
 	Byz bool `json:"byz"`
 	// OtherTypes: some results belong to upkeeps of a third trigger type
 	OtherTypes bool `json:"otherTypes"`
+	// Rerun: percentage of rounds that do NOT commit (leader change, timeout, lost messages).  libocr then runs the next round
+	// on the SAME previous outcome: every instance goes through Observation / Outcome with bytes it has already decoded and
+	// worked on; no report of the lost round is accepted, the staged work stays, the sequence number moves on
+	Rerun int `json:"rerun,omitempty"`
+	// Recheck: between two rounds staged work that is not agreed yet is checked again on a higher block: the result store
+	// replaces the result (same work id, same perform data length; other check block, gas, prices — mostly with longer
+	// encodings than the first check, which answers with the shortest ones)
+	Recheck bool `json:"recheck,omitempty"`
+}
+
+// c03Again: one more evaluation of a plugin function on an instance that has evaluated it before on the same inputs
+type c03Again struct {
+	Node int    `json:"node"`
+	Call string `json:"call"`
+	Same bool   `json:"same"` // same bytes (and the same error status) as the first evaluation
+	Err  string `json:"err,omitempty"`
 }
 
 // c03Cfg is the effective report configuration (after ensureMinimumDefaults), for the model of Reports.
@@ -214,6 +264,11 @@ type c03RoundImpl struct {
 	RL          []int     `json:"rl"`
 	PL          [][]int   `json:"pl"`
 	Limits      c03Limits `json:"limits"`
+	// Again: Outcome / Reports evaluated again on instances that had evaluated them on the same inputs
+	Again []c03Again `json:"again"`
+	// Committed: false for a round that was lost (Rerun); `nextDecodes` is then the verdict of the public decoder and of
+	// another instance's Reports on the bytes
+	Committed bool `json:"committed"`
 }
 
 type c03Pipeline struct {
@@ -251,6 +306,9 @@ func c03RunChain(t *testing.T, rc c03ChainRecipe, em *Emitter, emit func(round i
 	f := (n - 1) / 3
 	digest := genHash(r)
 	pipe := &c03Pipeline{byWid: map[string]ocr2keepers.CheckResult{}}
+	r2 := NewRng(rc.Seed ^ 0x5eed0c03) // decisions of Rerun / Recheck: the main stream is the same with and without them
+	var fed []string                   // work ids fed through the log flow (Recheck)
+	agreedW := map[string]bool{}
 	nodes := make([]*Node, n)
 	for i := range nodes {
 		nodes[i] = NewNode(t, NodeOpts{N: n, F: f, Digest: digest, OracleID: i,
@@ -269,12 +327,22 @@ func c03RunChain(t *testing.T, rc c03ChainRecipe, em *Emitter, emit func(round i
 	time.Sleep(1637 * time.Millisecond)
 	ctx := context.Background()
 	height := uint64(r.Range(1000, 50000))
+	height0 := height
 	chainHashes := map[uint64][32]byte{}
 	hashAt := func(h uint64) [32]byte {
 		if v, ok := chainHashes[h]; ok {
 			return v
 		}
 		v := genHash(r)
+		if rc.Recheck { // the blocks the first checks ran on have hashes with short encodings, later blocks long ones
+			for i := range v {
+				if h <= height0 {
+					v[i] = v[i] % 10
+				} else {
+					v[i] = 100 + v[i]%156
+				}
+			}
+		}
 		chainHashes[h] = v
 		return v
 	}
@@ -290,12 +358,21 @@ func c03RunChain(t *testing.T, rc c03ChainRecipe, em *Emitter, emit func(round i
 		case r.Chance(10):
 			res.PerformData = r.Bytes(r.Range(100, 3000))
 		}
+		if rc.Recheck {
+			c08CheckValues(r2, &res, 0)
+			res.Trigger.BlockHash = hashAt(uint64(res.Trigger.BlockNumber))
+			res.GasAllocated = uint64(r2.Range(100_000, 999_999))
+			if rc.Heavy {
+				res.PerformData = r2.Bytes(r2.Range(5000, 10000)) // uneven sizes
+			}
+		}
 		return res
 	}
 	feed := func(k int) {
 		for j := 0; j < k; j++ {
 			res := newResult(r.Chance(60))
 			pipe.add(res)
+			fed = append(fed, res.WorkID)
 			for _, nd := range nodes {
 				if r.Chance(85) {
 					nd.Logs.mu.Lock()
@@ -411,6 +488,34 @@ func c03RunChain(t *testing.T, rc c03ChainRecipe, em *Emitter, emit func(round i
 					em.Hit("chain-reorgs")
 				}
 			}
+			if rc.Recheck && k > 0 {
+				nre := 0
+				for _, w := range fed {
+					pipe.mu.Lock()
+					res, ok := pipe.byWid[w]
+					pipe.mu.Unlock()
+					if !ok || agreedW[w] || uint64(res.Trigger.BlockNumber) >= height || !r2.Chance(70) {
+						continue
+					}
+					res.Trigger.BlockNumber = ocr2keepers.BlockNumber(height)
+					c08CheckValues(r2, &res, []int{2, 2, 2, 1, 0}[r2.Intn(5)])
+					res.Trigger.BlockHash = hashAt(height)
+					res.GasAllocated = uint64(r2.Range(1_000_000, 5_000_000)) // (the gas sums of Reports are uint64: no allowances near 2^64 here)
+					res.PerformData = r2.Bytes(len(res.PerformData))
+					pipe.add(res)
+					for _, nd := range nodes {
+						if r2.Chance(85) {
+							nd.Logs.mu.Lock()
+							nd.Logs.payloads = append(nd.Logs.payloads, payloadOf(res))
+							nd.Logs.mu.Unlock()
+						}
+					}
+					nre++
+				}
+				if nre > 0 {
+					em.Hit("chain-rechecks")
+				}
+			}
 			for _, nd := range nodes {
 				top := height - uint64(r.Intn(2)) // some nodes lag by a block
 				h := make(ocr2keepers.BlockHistory, 0, depth)
@@ -465,6 +570,7 @@ func c03RunChain(t *testing.T, rc c03ChainRecipe, em *Emitter, emit func(round i
 		if err0 != nil && nextErr == "" {
 			nextErr = "Outcome: " + err0.Error()
 		}
+		hadPend := pend != nil
 		if pend != nil {
 			pend.impl.NextDecodes = nextErr == ""
 			pend.impl.NextErr = nextErr
@@ -474,13 +580,38 @@ func c03RunChain(t *testing.T, rc c03ChainRecipe, em *Emitter, emit func(round i
 		if last {
 			break
 		}
-		impl := c03RoundImpl{Len: len(out0), Identical: true, Validate: validate, ObsLens: obsLens, Limits: toC03Limits(nodes[0].Info.Limits), RL: []int{}, PL: [][]int{}}
+		impl := c03RoundImpl{Len: len(out0), Identical: true, Validate: validate, ObsLens: obsLens, Limits: toC03Limits(nodes[0].Info.Limits), RL: []int{}, PL: [][]int{},
+			Again: []c03Again{}, Committed: true}
+		evaluated := []int{0}
 		for _, i := range r.Perm(n - 1)[:2] { // two other nodes, chosen at random (decoding a full outcome 10 times per round is what costs)
 			i++
 			oi, erri := nodes[i].Plugin.Outcome(ctx, outctx, nil, aos)
 			if string(oi) != string(out0) || (erri == nil) != (err0 == nil) {
 				impl.Identical = false
 			}
+			evaluated = append(evaluated, i)
+		}
+		// libocr may evaluate Outcome on a node any number of times (the function is specified as pure): node 0 (and every
+		// third round the last of the others) once more, after everything above
+		againOn := []int{0}
+		if k%3 == 0 {
+			againOn = append(againOn, evaluated[len(evaluated)-1])
+		}
+		for _, i := range againOn {
+			oi, erri := nodes[i].Plugin.Outcome(ctx, outctx, nil, aos)
+			ag := c03Again{Node: i, Call: "Outcome", Same: string(oi) == string(out0) && (erri == nil) == (err0 == nil)}
+			if erri != nil {
+				ag.Err = erri.Error()
+			} else if !ag.Same {
+				if _, derr := ocr2keepersv3.DecodeAutomationOutcome(oi, utg, wg); derr != nil {
+					ag.Err = "the bytes of this evaluation do not decode: " + derr.Error()
+				}
+			}
+			impl.Again = append(impl.Again, ag)
+		}
+		if nextErr != "" && !hadPend && err0 == nil && k > 0 {
+			// Observation failed on a previous outcome that earlier rounds had accepted (a round run again)
+			err0 = errors.New(nextErr)
 		}
 		for kq := 0; kq <= n; kq++ {
 			var sub []ocr2plustypes.AttributedObservation
@@ -527,12 +658,50 @@ func c03RunChain(t *testing.T, rc c03ChainRecipe, em *Emitter, emit func(round i
 			}
 			impl.PL = append(impl.PL, ls)
 		}
+		// ---- a lost round: nothing is reported or accepted, the next round runs on the same previous outcome
+		if rc.Rerun > 0 && r2.Chance(rc.Rerun) {
+			impl.Committed = false
+			last := nodes[n-1] // did not necessarily evaluate this round's Outcome
+			reps, rerr := last.Plugin.Reports(ctx, seq, out0)
+			last.Enc.Take()
+			impl.Reports = len(reps)
+			if rerr != nil {
+				impl.ReportsErr = rerr.Error()
+			}
+			_, derr := ocr2keepersv3.DecodeAutomationOutcome(out0, utg, wg)
+			switch {
+			case derr != nil:
+				impl.NextErr = "DecodeAutomationOutcome: " + derr.Error()
+			case rerr != nil:
+				impl.NextErr = "Reports on another node: " + rerr.Error()
+			}
+			impl.NextDecodes = impl.NextErr == ""
+			em.Hit("round-not-committed")
+			emit(k, x, impl)
+			seq += uint64(r2.Range(1, 3))
+			continue
+		}
 		// ---- Reports, and every node accepts them (the work is in flight from now on)
 		reps, rerr := nodes[0].Plugin.Reports(ctx, seq, out0)
 		nodes[0].Enc.Take()
 		impl.Reports = len(reps)
 		if rerr != nil {
 			impl.ReportsErr = rerr.Error()
+		}
+		if k%2 == 0 { // Reports once more on the same instance
+			reps2, rerr2 := nodes[0].Plugin.Reports(ctx, seq, out0)
+			nodes[0].Enc.Take()
+			ag := c03Again{Node: 0, Call: "Reports", Same: len(reps2) == len(reps) && (rerr2 == nil) == (rerr == nil)}
+			for j := 0; ag.Same && j < len(reps); j++ {
+				ag.Same = string(reps2[j].ReportWithInfo.Report) == string(reps[j].ReportWithInfo.Report)
+			}
+			if rerr2 != nil {
+				ag.Err = rerr2.Error()
+			}
+			impl.Again = append(impl.Again, ag)
+		}
+		for _, res := range o.AgreedPerformables {
+			agreedW[res.WorkID] = true
 		}
 		for _, rp := range reps {
 			for _, nd := range nodes {
@@ -670,6 +839,12 @@ func c03ChainGen(r *Rng, i int) c03ChainRecipe {
 	rc.Reorgs = i%2 == 0
 	rc.Byz = i%5 != 1
 	rc.OtherTypes = i%3 != 0
+	rc.Rerun = []int{0, 0, 35}[i%3] // lost rounds: the next one runs on the same previous outcome
+	if i%5 == 1 {                     // the byte limit cuts, rounds are lost, staged work is checked again in between
+		rc.Recheck, rc.Rerun = true, 45
+	} else if i%5 == 4 {
+		rc.Recheck = true
+	}
 	return rc
 }
 
@@ -731,6 +906,12 @@ func TestC03(t *testing.T) {
 				t.Fatalf("%s: %v", names[i], err)
 			}
 			c03RunQuorum(t, em, names[i], in.N, in.F)
+		case "obs-script":
+			var in c03ObsScriptInput
+			if err := json.Unmarshal(raw, &in); err != nil {
+				t.Fatalf("%s: %v", names[i], err)
+			}
+			c03EmitScript(t, em, names[i], in.c08ScriptRecipe, in.Node)
 		case "round":
 			var in c03RoundInput
 			if err := json.Unmarshal(raw, &in); err != nil {
@@ -744,6 +925,13 @@ func TestC03(t *testing.T) {
 	if replayOnly {
 		return
 	}
+	t0 := time.Now()
+	lap := func(what string) {
+		if os.Getenv("VERIF_TIMING") != "" {
+			fmt.Fprintf(os.Stderr, "C03 %-28s %6.1fs\n", what, time.Since(t0).Seconds())
+		}
+		t0 = time.Now()
+	}
 	// (a) observations of the C08 worlds
 	for _, rc := range c08Edge() {
 		if rc.NAgedProps > 0 && !thorough() && rc.AgedDeltaMs < 0 {
@@ -755,18 +943,34 @@ func TestC03(t *testing.T) {
 		c03EmitWorld(t, em, "edge", rc, -1)
 	}
 	c03QuorumSweep(t, em)
+	lap("edge worlds")
 	r := NewRng(seed() + 3000)
 	nw := tierN(34, 600)
 	for i := 0; i < nw; i++ {
 		c03EmitWorld(t, em, "gen", c08Gen(r, i), -1)
 	}
+	lap("generated worlds")
+	// (a') observations of the same two instances over several rounds (C08 scripts): staged results replaced by re-checks
+	// between the observations of one window with the byte limit active; instances that also evaluate Outcome / Reports
+	for _, rc := range c08ScriptEdge() {
+		if rc.Variant == "recheck" || (rc.Evals && !rc.LongIDs) {
+			c03EmitScript(t, em, "edge", rc, -1)
+		}
+	}
+	rr := NewRng(seed() + 3500)
+	for i, nr := 0, tierN(5, 100); i < nr; i++ {
+		c03EmitScript(t, em, "gen", c08RecheckScript(rr, rr.U64(), i), -1)
+	}
+	lap("scripts")
 	// (b) chains
 	for _, rc := range c03ChainEdge() {
 		c03RunAndEmitChain(t, em, "edge", rc)
 	}
+	lap("edge chains")
 	nc := tierN(15, 300)
 	for i := 0; i < nc; i++ {
 		c03RunAndEmitChain(t, em, "gen", c03ChainGen(r, i))
+		lap(fmt.Sprintf("gen chain %d", i))
 	}
 }
 
@@ -786,5 +990,11 @@ func c03ChainEdge() []c03ChainRecipe {
 		{Seed: 9, N: 5, Rounds: 12, Burst: 3, PerRound: 2, Props: 3, PauseAt: -1, Round: -1, Reorgs: true, Byz: true},
 		{Seed: 10, N: 4, Rounds: 12, Burst: 3, PerRound: 2, Props: 2, PauseAt: -1, Round: -1, Batch: 3, Reorgs: true, Byz: true},
 		{Seed: 11, N: 4, Rounds: 8, Burst: 40, PerRound: 5, Props: 1, PauseAt: -1, Round: -1, Batch: 5, OtherTypes: true},
+		// lost rounds: the next round runs on the same previous outcome (all instances have decoded and worked on it before);
+		// surfaced proposals leave the history as their results get agreed
+		{Seed: 12, N: 4, Rounds: 14, Burst: 6, PerRound: 3, Props: 4, PauseAt: -1, Round: -1, Rerun: 40},
+		{Seed: 13, N: 7, Rounds: 12, Burst: 10, PerRound: 4, Props: 8, PauseAt: -1, Round: -1, Batch: 4, Rerun: 35, Byz: true},
+		// … with observations at the byte limit and staged work checked again between the rounds of one window
+		{Seed: 14, N: 4, Rounds: 8, Burst: 112, Heavy: true, PerRound: 2, Props: 1, PauseAt: -1, Round: -1, Rerun: 55, Recheck: true},
 	}
 }
